@@ -11,6 +11,7 @@
 
      for key, val in self._registry.items():      # loop 1:  val != other.get(key)
      for key, other_val in other._registry.items():   # loop 2:  other_val != self.get(key)
+   (a difference does not count when both sides are float NaN: _both_nan)
 
    A prop value is an int/bool, float, str, bytes, UUID, datetime, date, a schema, a list of
    schemas-or-Ellipsis (`elements`), a tuple of schemas (`types`) or a dict
@@ -37,7 +38,9 @@ Require Import D42.Prelude D42.PyFloat D42.Value D42.Regex D42.Schema D42.Valida
 
 (* ---- `==` on parameter values ---- *)
 Definition int_eq (a b : intv) : bool := Z.eqb (iz a) (iz b).            (* 1 == True *)
-Definition float_eq (a b : float) : bool := PrimFloat.eqb a b.           (* nan <> nan, 0.0 == -0.0 *)
+(* float props (value/min/max of a float schema), as Props.__eq__ compares them:
+     not (a != b and not _both_nan(a, b))     -- 0.0 == -0.0; two NaN parameters are equal *)
+Definition float_eq (a b : float) : bool := PrimFloat.eqb a b || (is_nan a && is_nan b).
 Definition bytes_eq (a b : list N) : bool := list_eqb N.eqb a b.
 Definition dt_eq (a b : bool * Z) : bool := Bool.eqb (fst a) (fst b) && Z.eqb (snd a) (snd b).
 (* date parameters: a date or a datetime (DateSchema.__call__ refuses anything else);
@@ -183,9 +186,9 @@ Definition schema_ne_value (s : schema) (v : value) : bool := negb (schema_eq_va
 
 (* s == s on one object: list, tuple and dict comparison take `is` before `==`, so the
    containers are equal to themselves whatever they hold; Props.__eq__ itself applies `!=`
-   directly, so a NaN parameter and a schema-valued prop are compared for real *)
+   directly, so a float parameter and a schema-valued prop are compared for real *)
 Definition self_float (o : option float) : bool :=
-  match o with Some x => PrimFloat.eqb x x | None => true end.
+  match o with Some x => float_eq x x | None => true end.
 Fixpoint schema_eqb_self (s : schema) : bool :=
   match s with
   | SFloat v mn mx _ => self_float v && self_float mn && self_float mx
@@ -236,26 +239,24 @@ Fixpoint marker_free (s : schema) : bool :=
   | _ => true
   end.
 
-(* no float parameter is NaN (and a date parameter is a date or a datetime) *)
-Definition not_nan (o : option float) : bool :=
-  match o with Some x => negb (is_nan x) | None => true end.
-Fixpoint no_nan_params (s : schema) : bool :=
+(* every date parameter is a date or a datetime: all DateSchema.__call__ accepts (for any
+   other stored value the model's date comparison answers False) *)
+Fixpoint date_params_ok (s : schema) : bool :=
   match s with
-  | SFloat v mn mx _ => not_nan v && not_nan mn && not_nan mx
   | SDate (Some v) => date_eqb v v
   | SList es ty _ _ _ =>
       match es with
       | None => true
       | Some l => forallb (fun x => x)
-                    (map (fun o => match o with Some e => no_nan_params e | None => true end) l)
+                    (map (fun o => match o with Some e => date_params_ok e | None => true end) l)
       end &&
-      match ty with None => true | Some t => no_nan_params t end
+      match ty with None => true | Some t => date_params_ok t end
   | SDict (Some l) =>
       forallb (fun x => x)
-        (map (fun e : dentry => match de_schema e with Some t => no_nan_params t | None => true end) l)
-  | SAny (Some l) => forallb (fun x => x) (map (fun t => no_nan_params t) l)
-  | SAlias _ t => no_nan_params t
-  | SCustom t => no_nan_params t
+        (map (fun e : dentry => match de_schema e with Some t => date_params_ok t | None => true end) l)
+  | SAny (Some l) => forallb (fun x => x) (map (fun t => date_params_ok t) l)
+  | SAlias _ t => date_params_ok t
+  | SCustom t => date_params_ok t
   | _ => true
   end.
 
